@@ -111,6 +111,12 @@ def run(tier):
             decl2 = gen_decl(rng, it, False)
             jobs.append(dict(op='enum', functional=[[('None_' if n == 'None' else n), v] for n, v in decl2], calls=calls_for(rng, decl2, it),
                              decl=[('None_' if n == 'None' else n, v) for n, v in decl2], how='functional-api'))
+        # the auto-numbered functional API, with and without an explicit start
+        for start in (None, 0, 1, rng.randrange(2, 300)):
+            nm = rng.sample([n for n in NAMES if n != 'None'], rng.randrange(1, 6))
+            decl3 = [(n, (1 if start is None else start) + i) for i, n in enumerate(nm)]
+            jobs.append(dict(op='enum', functional_names=rng.choice([' '.join(nm), ', '.join(nm), nm]), start=start, calls=calls_for(rng, decl3, 'short'),
+                             decl=decl3, how='functional-api-auto'))
         entries.append(dict(name=f"enums-{k}", tree=t, jobs=jobs))
     run_entries(C, runner, entries)
     cases = []
